@@ -271,16 +271,20 @@ impl<P: Partitioner> Producer<P> {
             // consider the send-data request blindly as successful
             Ok(())
         } else {
-            assert_eq!(1, rs.len());
-            let mut produce_confirm = rs.pop().unwrap();
-
-            assert_eq!(1, produce_confirm.partition_confirms.len());
-            produce_confirm
-                .partition_confirms
-                .pop()
-                .unwrap()
-                .offset
-                .map_err(Error::Kafka)?;
+            // ~ one message sent, exactly one confirmation expected;
+            // anything else is a response we cannot make sense of
+            let mut produce_confirm = match (rs.pop(), rs.is_empty()) {
+                (Some(confirm), true) => confirm,
+                _ => return Err(Error::CodecError),
+            };
+            let partition_confirm = match (
+                produce_confirm.partition_confirms.pop(),
+                produce_confirm.partition_confirms.is_empty(),
+            ) {
+                (Some(confirm), true) => confirm,
+                _ => return Err(Error::CodecError),
+            };
+            partition_confirm.offset.map_err(Error::Kafka)?;
             Ok(())
         }
     }
